@@ -8,6 +8,9 @@ import Nstd.Buffer.LemmasStep
 
   The theorems are about the model `Nstd.Buffer.run` (Model.lean) started in `init nvars regs`
   (`nvars` default-constructed Buffer variables, `regs` = attachable caller memory) and hold
+  for EVERY history = list of (operation, capacity wish) pairs: the capacity a method gives a block
+  it allocates is `max needed wish` (Model.lean `newCap`), i.e. the theorems hold for every capacity
+  POLICY that allocates at least what the method needs (wish 0 everywhere = today's Buffer.hpp),
   for EVERY operation list, every number of variables and every region content; no bound on
   sizes, offsets or the length of the history.  A fault (`none`) of the model is an access
   outside the object's own allocation / the attached range, a store into attached memory, an
@@ -21,17 +24,17 @@ namespace Nstd.Buffer
     sizes, head-room, capacities and ownership states it goes through – including histories
     that mix `attach` with owning operations, that hand the same region to several buffers,
     that pass a buffer to itself and that prepend a sub-range of the buffer's own bytes. -/
-theorem no_fault (nvars : Nat) (regs : List (List Byte)) (ops : List Op)
-    (hwf : ∀ op ∈ ops, WFOp nvars regs op) :
+theorem no_fault (nvars : Nat) (regs : List (List Byte)) (ops : List (Op × Nat))
+    (hwf : ∀ p ∈ ops, WFOp nvars regs p.1) :
     ∃ st, run (init nvars regs) ops = some st := by
-  have hw : ∀ op ∈ ops, WFOp (init nvars regs).bufs.length (init nvars regs).regs op := by
+  have hw : ∀ p ∈ ops, WFOp (init nvars regs).bufs.length (init nvars regs).regs p.1 := by
     simpa [init] using hwf
   obtain ⟨st, h, _⟩ := run_ok ops (qs := Spec.init nvars) (init_inv nvars regs) (init_rel nvars regs) hw
   exact ⟨st, h⟩
 
 /-- **Terminator.**  In every reachable state, whenever a Buffer owns storage, the byte after
     the data is readable (inside the allocation) and is `0`. -/
-theorem terminator_zero (nvars : Nat) (regs : List (List Byte)) (ops : List Op) (st : State)
+theorem terminator_zero (nvars : Nat) (regs : List (List Byte)) (ops : List (Op × Nat)) (st : State)
     (hrun : run (init nvars regs) ops = some st) (v : Nat) (b : Buf)
     (hb : st.getBuf v = some b) (hown : b.owning = true) :
     Nstd.Buffer.terminator st v = some (some (some 0)) := by
@@ -68,9 +71,9 @@ theorem terminator_zero (nvars : Nat) (regs : List (List Byte)) (ops : List Op) 
     read without a fault and match the reference byte queue of `Spec.lean` run on the same
     history (`Match`: equal length, every specified byte equal; bytes newly exposed by a growing
     `resize` are unspecified in the specification and match anything). -/
-theorem refines (nvars : Nat) (regs : List (List Byte)) (ops : List Op) (st : State)
+theorem refines (nvars : Nat) (regs : List (List Byte)) (ops : List (Op × Nat)) (st : State)
     (hrun : run (init nvars regs) ops = some st) (v : Nat) (hv : v < nvars) :
-    ∃ c, contents st v = some c ∧ Match (Spec.get (Spec.run regs (Spec.init nvars) ops) v) c := by
+    ∃ c, contents st v = some c ∧ Match (Spec.get (Spec.run regs (Spec.init nvars) (ops.map Prod.fst)) v) c := by
   have hp := run_post ops (qs := Spec.init nvars) (init_inv nvars regs) (init_rel nvars regs) hrun
   have hlen : st.bufs.length = nvars := by simpa [init] using hp.2.2.2
   have hb : st.bufs[v]? = some st.bufs[v] := List.getElem?_eq_getElem (hlen ▸ hv)
@@ -79,7 +82,7 @@ theorem refines (nvars : Nat) (regs : List (List Byte)) (ops : List Op) (st : St
 /-- **Attached memory is never modified.**  The attachable regions are the same after any
     history.  (In the model a store of at least one byte through a pointer into attached memory
     is a fault – `att_store_faults` – so together with `no_fault` no such store is ever attempted.) -/
-theorem attached_untouched (nvars : Nat) (regs : List (List Byte)) (ops : List Op) (st : State)
+theorem attached_untouched (nvars : Nat) (regs : List (List Byte)) (ops : List (Op × Nat)) (st : State)
     (hrun : run (init nvars regs) ops = some st) : st.regs = regs :=
   (run_post ops (qs := Spec.init nvars) (init_inv nvars regs) (init_rel nvars regs) hrun).2.2.1
 
@@ -93,7 +96,7 @@ theorem att_store_faults (m : List Byte) (off : Nat) (d : List Byte) (L : Ledger
 
 /-- **No leak.**  In every reachable state every live allocation (`new char[]` not yet `delete[]`d)
     is the `buffer` of some variable. -/
-theorem no_leak (nvars : Nat) (regs : List (List Byte)) (ops : List Op) (st : State)
+theorem no_leak (nvars : Nat) (regs : List (List Byte)) (ops : List (Op × Nat)) (st : State)
     (hrun : run (init nvars regs) ops = some st) (id : Nat) (hid : id ∈ st.led.live) :
     ∃ v b, st.getBuf v = some b ∧ b.ownId = some id :=
   (run_post ops (qs := Spec.init nvars) (init_inv nvars regs) (init_rel nvars regs) hrun).1.2.owned_of_live id hid
@@ -101,7 +104,7 @@ theorem no_leak (nvars : Nat) (regs : List (List Byte)) (ops : List Op) (st : St
 /-- **No dangling pointer, exclusive ownership.**  In every reachable state the block an owning
     variable points to is live, and no two variables point to the same block (so that the
     destructors delete every block exactly once). -/
-theorem owned_blocks_live_and_exclusive (nvars : Nat) (regs : List (List Byte)) (ops : List Op) (st : State)
+theorem owned_blocks_live_and_exclusive (nvars : Nat) (regs : List (List Byte)) (ops : List (Op × Nat)) (st : State)
     (hrun : run (init nvars regs) ops = some st) (v : Nat) (b : Buf) (id : Nat)
     (hb : st.getBuf v = some b) (hid : b.ownId = some id) :
     id ∈ st.led.live ∧ ∀ w b', st.getBuf w = some b' → b'.ownId = some id → w = v := by
@@ -131,7 +134,7 @@ theorem delete_removes (id : Nat) (L L' : Ledger) (m : List Byte) (h : (Store.ow
 
 /-- `operator==` / `operator!=` read only the exposed bytes: in every reachable state the comparison
     of two variables does not fault and is the equality of their contents. -/
-theorem compare_no_fault (nvars : Nat) (regs : List (List Byte)) (ops : List Op) (st : State)
+theorem compare_no_fault (nvars : Nat) (regs : List (List Byte)) (ops : List (Op × Nat)) (st : State)
     (hrun : run (init nvars regs) ops = some st) (v w : Nat) (hv : v < nvars) (hw : w < nvars) :
     ∃ cv cw, contents st v = some cv ∧ contents st w = some cw ∧ equalBufs st v w = some (cv == cw) := by
   obtain ⟨cv, hcv, _⟩ := refines nvars regs ops st hrun v hv
@@ -139,11 +142,11 @@ theorem compare_no_fault (nvars : Nat) (regs : List (List Byte)) (ops : List Op)
   exact ⟨cv, cw, hcv, hcw, by simp [equalBufs, hcv, hcw]⟩
 
 /-- all four statements at once for well-formed histories -/
-theorem buffer_correct (nvars : Nat) (regs : List (List Byte)) (ops : List Op)
-    (hwf : ∀ op ∈ ops, WFOp nvars regs op) :
+theorem buffer_correct (nvars : Nat) (regs : List (List Byte)) (ops : List (Op × Nat))
+    (hwf : ∀ p ∈ ops, WFOp nvars regs p.1) :
     ∃ st, run (init nvars regs) ops = some st ∧ st.regs = regs ∧
       ∀ v, v < nvars → ∃ b c, st.getBuf v = some b ∧ contents st v = some c ∧
-        Match (Spec.get (Spec.run regs (Spec.init nvars) ops) v) c ∧
+        Match (Spec.get (Spec.run regs (Spec.init nvars) (ops.map Prod.fst)) v) c ∧
         (b.owning = true → Nstd.Buffer.terminator st v = some (some (some 0))) := by
   obtain ⟨st, hrun⟩ := no_fault nvars regs ops hwf
   refine ⟨st, hrun, attached_untouched nvars regs ops st hrun, fun v hv => ?_⟩
@@ -160,13 +163,19 @@ def exRegs : List (List Byte) := [[some 0x10, some 0x11, some 0x12, some 0x13], 
 
 /-- a history that goes through attach, the reallocating / shifting / head-room branches of prepend,
     compaction in resize, self-append, prepend of a sub-range of the buffer itself, swap, and ends with two non-empty buffers -/
-def exOps : List Op :=
+def exHist : List Op :=
   [.attach 0 0 1 3, .appendData 0 [1, 2], .removeFront 0 2, .prependData 0 [7], .prependData 0 [8, 9],
    .resize 0 7, .appendBuf 0 0, .ctorCap 1 4, .appendBuf 1 0, .removeBack 1 10, .swap 0 1,
    .prependBuf 1 1, .assignBuf 0 0, .prependSub 0 1 2, .reserve 0 20, .attach 1 1 0 2, .removeBack 1 1]
 
-example : ∀ op ∈ exOps, WFOp 2 exRegs op := by
-  simp [exOps, WFOp, exRegs]
+/-- the history with the capacity policy of today's Buffer.hpp (no wish) … -/
+def exOps : List (Op × Nat) := exHist.map (fun op => (op, 0))
+
+/-- … and with an environment that asks for capacity 16 at every step -/
+def exOps16 : List (Op × Nat) := exHist.map (fun op => (op, 16))
+
+example : ∀ p ∈ exOps, WFOp 2 exRegs p.1 := by
+  simp [exOps, exHist, WFOp, exRegs]
 
 /-- the hypotheses of `terminator_zero`/`refines`/`attached_untouched` are met by a run ending in an
     owning buffer with six bytes and an attached buffer with one byte -/
@@ -180,6 +189,14 @@ example : ∃ st b, run (init 2 exRegs) exOps = some st ∧ st.getBuf 0 = some b
 example : ∃ st b, run (init 2 exRegs) exOps = some st ∧ st.led.next = 9 ∧ st.led.live = [8] ∧
     st.getBuf 0 = some b ∧ b.ownId = some 8 := by
   refine ⟨_, _, rfl, rfl, rfl, rfl, rfl⟩
+
+/-- capacity-policy non-vacuity: with an environment that asks for capacity 16 at every step the same
+    history exposes the same bytes, but takes other branches (5 allocations instead of 9) -/
+example : ∃ st b, run (init 2 exRegs) exOps16 = some st ∧ st.led.next = 5 ∧ st.led.live = [4] ∧
+    st.getBuf 0 = some b ∧ b.cap = 20 ∧
+    contents st 0 = some [some 9, some 7, some 8, some 9, some 7, some 0x13] ∧
+    contents st 1 = some [some 0x20] := by
+  refine ⟨_, _, rfl, rfl, rfl, rfl, rfl, rfl, rfl⟩
 
 /-- the ledger does catch a use after free and a double free (what `no_fault` excludes) -/
 example : ((do (Store.own 0 [none]).release; (Store.own 0 [none]).load 0 0 : M (List Byte))
@@ -196,7 +213,7 @@ example : Match [none, some 3] [some 9, some 3] :=
   .cons (.inl rfl) (.cons (.inr rfl) .nil)
 
 /-- the model does fault on ill-formed use: an attached range outside its region -/
-example : run (init 2 exRegs) [.attach 0 1 1 2] = none := by decide
+example : run (init 2 exRegs) [(.attach 0 1 1 2, 0)] = none := by decide
 
 /-- and the checked memory does catch out-of-range accesses (what `no_fault` excludes) -/
 example : wrList [none, none] 1 [some 0, some 0] = none ∧ rdList [some 1] 1 1 = none := by decide
